@@ -19,6 +19,9 @@ CHECKS["C03"] = ("§5 C03", "All feasible paths of the real matching code (locat
     "build_trigger, convert_response, add_custom) for 1-3 tracepoints and 1-2 events: a tracepoint acts iff the documented match holds, every "
     "matching tracepoint acts exactly once with every action kind, nothing else happens. Line numbers unbounded where the code only compares them; "
     "paths as free symbolic strings <= 4 chars.")
+CHECKS["C10"] = ("§5 C10", "All feasible paths of the real condition/expression code for 3 hits with symbolic per-hit truth, unbounded fire_count and "
+    "9 condition flavours (failing ones raise exceptions with a free symbolic message); name visibility of 9 names (local, host global, builtin, agent-only) "
+    "at the 4 evaluation sites (watch, log field, metric label, condition) against Python's own eval in the frame scope; failing-expression isolation.")
 PENDING = {}
 
 def main():
